@@ -30,6 +30,7 @@ import (
 	"github.com/spf13/viper"
 	"gopkg.in/yaml.v3"
 
+	bconfig "go.minekube.com/gate/pkg/edition/bedrock/config"
 	jconfig "go.minekube.com/gate/pkg/edition/java/config"
 	liteconfig "go.minekube.com/gate/pkg/edition/java/lite/config"
 	"go.minekube.com/gate/pkg/edition/java/proxy/verifh/lib"
@@ -352,6 +353,19 @@ func canonComponents(c *gcfg.Config) *gcfg.Config {
 		}
 		canonMu.Unlock()
 		return cur
+	}
+	// Bedrock: an empty listen address / username format / key path is documented to mean the
+	// default ("Default: localhost:25567" ...), and ToConfig() substitutes it at use.
+	if b := &o.Config.Bedrock; true {
+		if b.GeyserListenAddr == "" {
+			b.GeyserListenAddr = bconfig.DefaultBedrockConfig.GeyserListenAddr
+		}
+		if b.UsernameFormat == "" {
+			b.UsernameFormat = bconfig.DefaultBedrockConfig.UsernameFormat
+		}
+		if b.FloodgateKeyPath == "" {
+			b.FloodgateKeyPath = bconfig.DefaultBedrockConfig.FloodgateKeyPath
+		}
 	}
 	o.Config.Status.Motd = fix(o.Config.Status.Motd)
 	if sr := o.Config.ShutdownReason; sr != nil {
